@@ -5,7 +5,7 @@ R08a wrapper sibling agreement   R08b (= R04e) body gating   R08c channel conver
 import ast
 from typing import Dict, List, Set, Tuple
 
-from ..cfg import analysis, FuncAnalysis, Node, N, E, stmt_call
+from ..cfg import analysis, FuncAnalysis, Node, N, E, stmt_call, branch_has, branch_atoms
 from ..lib import prov, is_convert_call, convert_value_arg, convert_type_arg
 from ..model import AnalysisError, FuncInfo, call_attr, kwarg, unparse, walk_shallow, norm_stmt, names_in
 from . import c04
@@ -124,8 +124,8 @@ def r08c(run):
                           message=f"{q}: `{unparse(y)}` does not yield a plain variable", node=y)
                 continue
             yt = by_type.get("self.generator_yield_type")
-            waiv = [b for b in fa.cfg.nodes if b.kind == "branch" and not b.is_for and not b.polarity
-                    and unparse(b.test) == "self.generator_yield_type"]
+            waiv = [b for b in fa.cfg.nodes if b.kind == "branch" and not b.is_for
+                    and branch_has(b, "self.generator_yield_type", False)]
             ok = yt is not None
             if ok:
                 for d in fa.rd.defs_of(n, v.id):
@@ -152,13 +152,12 @@ def r08c(run):
             a = c.args[0] if c.args else None
             ok = isinstance(a, ast.Name) and st is not None
             if ok:
-                waiv = [b for b in fa.cfg.nodes if b.kind == "branch" and not b.is_for and not b.polarity
-                        and unparse(b.test) == "self.generator_send_type"]
+                waiv = [b for b in fa.cfg.nodes if b.kind == "branch" and not b.is_for
+                        and branch_has(b, "self.generator_send_type", False)]
                 # a None (= nothing sent) needs no conversion and is never passed to send(): the send is guarded by
                 # the same `is not None` test
                 waiv += [b for b in fa.cfg.nodes if b.kind == "branch" and not b.is_for and (
-                    (unparse(b.test) == f"{a.id} is not None" and not b.polarity) or
-                    (unparse(b.test) == f"{a.id} is None" and b.polarity))]
+                    branch_has(b, f"{a.id} is not None", False) or branch_has(b, f"{a.id} is None", True))]
                 guarded = any(unparse(x) == f"{a.id} is not None" and p_ for x, p_ in fa.facts.atoms_at(n))
                 if not guarded:
                     waiv = [b for b in waiv if "None" not in unparse(b.test)]
